@@ -18,4 +18,6 @@ for c in m['checks']:
     assert e['coverage']['obligations']==e['coverage']['discharged'], c['property_id']
 print("manifest and evidence valid")
 PY
+[ $? -ne 0 ] && fail=1
+if [ $fail = 0 ]; then echo "RUNALL: ALL OK"; else echo "RUNALL: FAILED"; fi
 exit $fail
